@@ -23,6 +23,7 @@ struct Lossy {
   DecNode Ld, Pd, Rd; int dfs = 48000, dch = 1; bool have_rx = false;
   std::vector<Rec> log; std::vector<std::pair<size_t, Pol>> pol_changes; Pol pol;
   int flavour = 0;   // 0 general, 1 FEC probe, 2 decay probe
+  int rx_cap = -1; long win_at = -1; int win_k = 0;   // WINDOW: every one of the 2^k loss patterns over packets [win_at, win_at+k) is played out
   uint64_t cur_seed = 0;
   explicit Lossy(Run &r) : run(r) {}
 
@@ -104,6 +105,7 @@ struct Lossy {
     double preloss_rms = 0; int64_t conceal_run48 = 0, active_run48 = 0; double decay_last_rms = -1; bool cng_may_be_armed = false, in_step = true; int64_t clean_run48 = 0; double cng_level = 0;
     // FEC probe accumulators
     double fec_err = 0, plc_err = 0, fec_lvl_err = 0, plc_lvl_err = 0; long fec_events = 0, fec_worse = 0;
+    int last_rx_mode = -1;   // mode of the last packet L actually decoded (-1: none yet)
     for (size_t k = 0; k < npk; k++) {
       while (pci < pol_changes.size() && pol_changes[pci].first <= k) pol = pol_changes[pci++].second;
       Rec &rc = log[k];
@@ -132,7 +134,7 @@ struct Lossy {
         if (Ld.final_range() != rc.enc_range) REPORT(run, prop, "received_packet_final_range_mismatch", "packet %zu after %s: enc %08x dec %08x (toc %02x)", k, last_loss >= 0 ? "earlier loss" : "no loss", rc.enc_range, Ld.final_range(), rc.pkt[0]);
         int qr = Pd.decode(rc.pkt.data(), (int)rc.pkt.size(), n, 0, FMT_F32, &pp, nullptr, &can, &fin);
         if (qr != n || Pd.final_range() != rc.enc_range) REPORT(run, prop, "received_packet_final_range_mismatch", "PLC-only replica, packet %zu", k);
-        run.api_ok += 2; run.count("rx_received");
+        run.api_ok += 2; run.count("rx_received"); last_rx_mode = rc.mode;
         if (conceal_run48 > 0) { conceal_run48 = 0; }
         preloss_rms = sqrt(energy(pl) / std::max<size_t>(1, pl.size()));
         clean_run48 += rc.frame48;
@@ -181,7 +183,24 @@ struct Lossy {
         int extra = 0;
         if (pol.slack && n + pol.slack * u <= dfs * 3 / 25) extra = pol.slack * u;
         std::vector<float> part;
+        // "and otherwise behaves like concealment": where the library has no redundant copy to use at all - the following packet or the
+        // stream so far is MDCT-only - an FEC request is, exactly, a concealment request of the same length. A byte copy of the receiver
+        // (C12: decoder state is freely copyable) conceals instead; PCM and the state left behind (next regular decode) must be identical.
+        std::vector<unsigned char> twin_state; std::vector<float> twin_pcm; bool twin = false;
+        if (Ld.d && (toc_mode(nx.pkt[0]) == 2 || last_rx_mode == 2 || opus_packet_get_samples_per_frame(nx.pkt.data(), dfs) > fs_req + extra)) {
+          size_t sz = (size_t)opus_decoder_get_size(dch); twin_state.resize(sz); memcpy(twin_state.data(), Ld.d, sz); twin = true;
+        }
         int r = Ld.decode(nx.pkt.data(), (int)nx.pkt.size(), fs_req + extra, 1, FMT_F32, &part, nullptr, &can, &fin);
+        if (twin && r == fs_req + extra) {
+          std::vector<unsigned char> after((size_t)opus_decoder_get_size(dch)); memcpy(after.data(), Ld.d, after.size());
+          memcpy(Ld.d, twin_state.data(), twin_state.size());
+          bool f2 = true, c2 = true; int r2 = Ld.decode(nullptr, 0, fs_req + extra, 0, FMT_F32, &twin_pcm, nullptr, &c2, &f2);
+          run.count("fec_vs_plc_exact_checked");
+          if (r2 != r || twin_pcm.size() != part.size() || memcmp(twin_pcm.data(), part.data(), part.size() * sizeof(float)) != 0)
+            REPORT(run, prop, "fec_without_redundancy_differs_from_concealment", "packet %zu lost, next toc %02x, previous mode %d: FEC call returned %d, concealment on a byte copy of the same decoder %d, PCM %s", k, nx.pkt[0], last_rx_mode, r, r2, twin_pcm.size() == part.size() ? "differs" : "length differs");
+          // (continue with the state the FEC call left: that is what a real receiver has)
+          memcpy(Ld.d, after.data(), after.size());
+        }
         if (r != fs_req + extra) REPORT(run, prop, "fec_wrong_count", "packet %zu: asked %d got %d (next toc %02x lbrr %d)", k, fs_req + extra, r, nx.pkt[0], nx.lbrr);
         if (!fin) REPORT(run, prop, "fec_nonfinite", "packet %zu", k);
         if (!can) REPORT(run, prop, "fec_wrote_past_buffer", "packet %zu", k);
@@ -332,15 +351,31 @@ struct Lossy {
       const Op &op = p.ops[i]; run.cur_op = (int)i;
       if (op.k == "ENCNEW") { Op o2 = op; o2.a[0] = K_SINGLE; S.op_encnew(o2, run); }
       else if (op.k == "RXNEW") { dfs = kRates[((op.arg(0) % 5) + 5) % 5]; dch = (int)(1 + ((op.arg(1) % 2) + 2) % 2);
+        rx_cap = (int)op.arg(2, -1);
         have_rx = Ld.create_single(dfs, dch, (int)op.arg(2, -1)) == OPUS_OK && Pd.create_single(dfs, dch, (int)op.arg(2, -1)) == OPUS_OK && Rd.create_single(dfs, dch, (int)op.arg(2, -1)) == OPUS_OK; }
       else if (op.k == "FLAVOUR") flavour = (int)op.arg(0);
+      else if (op.k == "WINDOW") { win_at = (long)std::max<int64_t>(0, op.arg(0)); win_k = (int)std::min<int64_t>(12, std::max<int64_t>(1, op.arg(1, 4))); }
       else if (op.k == "CTL") { if (S.enc.alive()) { int r = S.enc.set((int)op.arg(0), (int)op.arg(1)); run.ev((uint64_t)r); if (r == OPUS_OK && op.arg(0) == OPUS_SET_EXPERT_FRAME_DURATION_REQUEST) S.expert_dur = (int)op.arg(1); } }
       else if (op.k == "SRC") S.op_src(op);
       else if (op.k == "ENC") op_enc(op);
       else if (op.k == "NET") op_net(op);
       else if (op.k == "RXPOL") { Pol q; q.fec = (int)op.arg(0) != 0; static const int pc[] = {0, 1, 2, 4, 8}; q.piece = pc[(size_t)(((op.arg(1) % 5) + 5) % 5)]; q.slack = (int)(((op.arg(2) % 5) + 5) % 5) * 4; pol_changes.push_back({log.size(), q}); }
     }
-    playout();
+    if (win_at < 0 || !have_rx) { playout(); return; }
+    // window enumeration: the sender's packet log is fixed; every loss pattern over the k packets of the window (all 2^k of them, the
+    // empty one included as the fault-free control) is played out through fresh receivers, each under every oracle above
+    if ((size_t)win_at + (size_t)win_k > log.size()) { if (log.size() < (size_t)win_k + 1) { playout(); return; } win_at = (long)(log.size() - (size_t)win_k - 1); }
+    std::vector<char> base(log.size()); for (size_t i = 0; i < log.size(); i++) base[i] = log[i].lost;
+    const Pol pol0 = pol;
+    for (unsigned pat = 0; pat < (1u << win_k); pat++) {
+      for (size_t i = 0; i < log.size(); i++) log[i].lost = base[i];
+      for (int b = 0; b < win_k; b++) log[(size_t)win_at + (size_t)b].lost = (pat >> b) & 1;
+      pol = pol0;
+      if (Ld.create_single(dfs, dch, rx_cap) != OPUS_OK || Pd.create_single(dfs, dch, rx_cap) != OPUS_OK || Rd.create_single(dfs, dch, rx_cap) != OPUS_OK) return;
+      run.ev((uint64_t)pat); run.count("window_patterns_played"); if (pat) run.fired = true;
+      playout();
+    }
+    run.count("window_sessions"); run.stat["max:window_bits"] = std::max<long>(run.stat["max:window_bits"], win_k);
   }
 };
 
@@ -366,9 +401,30 @@ void gen_enc_setup(Rng &r, Plan &p, bool fec_friendly) {
 Plan gen(uint64_t seed, int tier) {
   Rng r(seed);
   Plan p; p.hdr["scenario"] = "lossy";
-  int flavour = r.weighted({7, 2, 1, 1});
+  int flavour = r.weighted({7, 2, 1, 1, 1});
   if (const char *ff = getenv("OPSIM_C09_FLAVOUR")) flavour = atoi(ff);   // calibration runs
-  p.ops.push_back(mkop("FLAVOUR", {flavour == 3 ? 0 : flavour}));
+  p.ops.push_back(mkop("FLAVOUR", {flavour >= 3 ? 0 : flavour}));
+  if (flavour == 4) {
+    // window enumeration: a short stream (lead-in, window, clean tail), no other loss; all 2^k patterns over the window are played out
+    gen_enc_setup(r, p, r.chance(0.6));
+    p.ops.push_back(mkop("RXPOL", {r.range(0, 1), r.range(0, 4), r.chance(0.3) ? r.range(1, 4) : 0}));
+    p.ops.push_back(mkop("SRC", {r.weighted({1, 0, 4, 2, 6, 3, 1, 1, 2, 0, 0, 0, 4, 1, 1, 2}), r.pick({60, 110, 220, 440, 1000, 3000}), r.pick({30, 100, 300, 500, 900}), r.range(1, 1000), r.pick({0, 300, 600, 2000})}));
+    int fidx = r.weighted({0, 1, 3, 8, 3, 3, 0, 0, 0});
+    int d48 = kFrames48[fidx];
+    int lead = (int)((int64_t)r.pick({100, 320, 400, 700}) * 48 / d48) + 1, tail = (int)((int64_t)r.pick({300, 600, 900}) * 48 / d48) + 1;
+    int k = tier ? (int)r.pick({4, 6, 7, 8, 8, 9}) : (int)r.pick({3, 4, 5, 5, 6});
+    bool switching = r.chance(0.4);   // mode / bandwidth / duration transitions inside the window
+    for (int i = 0; i < lead + k + tail; i++) {
+      if (switching && i >= lead - 1 && i < lead + k && r.chance(0.35)) {
+        if (r.chance(0.5)) p.ops.push_back(mkop("CTL", {11002, r.pick({1000, 1001, 1002, -1000})}));
+        else if (r.chance(0.5)) p.ops.push_back(mkop("CTL", {OPUS_SET_BITRATE_REQUEST, r.pick({8000, 16000, 24000, 48000, 96000})}));
+        else fidx = r.weighted({0, 1, 3, 8, 3, 3, 0, 0, 0});
+      }
+      p.ops.push_back(mkop("ENC", {fidx, 1500, r.range(0, 2)}));
+    }
+    p.ops.push_back(mkop("WINDOW", {lead, k}));
+    return p;
+  }
   if (flavour == 3) {
     // frame-duration switches on a narrow / medium band SILK stream with isolated losses: concealment state sized for one frame
     // duration meets buffers last filled under another
